@@ -3,7 +3,7 @@
    [c10case] values; [ok09]/[ok10] re-run the format interpreter on the regenerated table
    (build/<id>/GenFormats.v) and compare projected, canonicalised observables. *)
 From Coq Require Import List ZArith Bool String.
-From SV Require Import Base.Corr WireFmt.Format.
+From SV Require Import Base.Corr WireFmt.Format WireFmt.Group.
 Import ListNotations.
 Open Scope Z_scope.
 
@@ -261,3 +261,62 @@ Definition witness_class (cfg : pcfg) (cap : Z) (tbl : list row) (w : string * l
       end
   | _ => -1
   end.
+
+(* ------------------------------------------------------------------ C10: group-protocol entry points *)
+(* g_kind 0: JoinGroupResponse.GetMembers (g_rows = [ConsumerGroupMemberMetadata])
+          1: SyncGroupResponse.GetMemberAssignment (g_rows = [ConsumerGroupMemberAssignment], one member)
+          2: deserializeTopicPartitionAssignment (g_rows = [StickyAssignorUserDataV1; StickyAssignorUserDataV0], one member;
+             the result value is VStruct [VInt tag; data], tag 1 = V1, 0 = V0)
+   members and results sorted by member id; g_class: 0 value, 1 error, 2 panic *)
+Record c10gcase := {
+  g_kind : Z;
+  g_rows : list nat;
+  g_members : list (value * option (list Z));
+  g_class : Z;
+  g_result : list (value * value);
+  g_masks : list (list (list Z))       (* per row of g_rows *)
+}.
+
+Definition row_dec (tbl : list row) (i : nat) : fmt * value :=
+  let r := nth i tbl dummy_row in (match r_dec r with Some fd => fd | None => FNil end, r_zero r).
+
+Definition norm_result (fd : fmt) (ms : list (list Z)) (y : value) : value := vmask_all ms (canon fd 0 y).
+
+Fixpoint results_eqb (f : value -> value) (a b : list (value * value)) : bool :=
+  match a, b with
+  | [], [] => true
+  | (k, y) :: a', (k', y') :: b' => value_eqb k k' && value_eqb (f y) (f y') && results_eqb f a' b'
+  | _, _ => false
+  end.
+
+Definition ok10g (cfg : pcfg) (tbl : list row) (c : c10gcase) : bool :=
+  match g_rows c with
+  | [i] =>
+      let '(fd, zero) := row_dec tbl i in
+      let m := get_members (decode_blob cfg None fd zero) (g_members c) in
+      (class_of m =? g_class c) &&
+      match m with
+      | Ok l => results_eqb (norm_result fd (nth 0 (g_masks c) [])) l (g_result c)
+      | _ => true
+      end
+  | [i1; i0] =>
+      let '(fd1, z1) := row_dec tbl i1 in
+      let '(fd0, z0) := row_dec tbl i0 in
+      match g_members c with
+      | [(k, b)] =>
+          let m := sticky_user_data (decode_blob cfg None fd1 z1) (decode_blob cfg None fd0 z0) b in
+          (class_of m =? g_class c) &&
+          match m, g_result c with
+          | Ok (tag, y), [(_, VStruct [VInt tag'; y'])] =>
+              (tag =? tag') &&
+              (if tag =? 1 then value_eqb (norm_result fd1 (nth 0 (g_masks c) []) y) (norm_result fd1 (nth 0 (g_masks c) []) y')
+               else value_eqb (norm_result fd0 (nth 1 (g_masks c) []) y) (norm_result fd0 (nth 1 (g_masks c) []) y'))
+          | Ok _, _ => false
+          | _, _ => true
+          end
+      | _ => false
+      end
+  | _ => false
+  end.
+
+Definition mismatches_10g (cfg : pcfg) (tbl : list row) := mismatches (ok10g cfg tbl).
